@@ -75,7 +75,11 @@ ID_SCOPE_SITE = "C08-reload-unattached-base-or-annotation"
 ID_SCOPE_NESTED = "C08-reload-unattached-nested-name"
 ID_STR_PARENT = "C08-reload-str-attribute-parent"
 ID_LAMBDA = "C08-reload-lambda-parameter-kind"
-ALL_IDS = [ID_LINENO, ID_FILEPATH, ID_FULL_BUILTIN, ID_FULL_NS_CWD, ID_SCOPE_SITE, ID_SCOPE_NESTED, ID_STR_PARENT, ID_LAMBDA]
+ID_CHAIN = "C08-reload-attribute-chain-flattened"
+ID_INIT_SCOPE = "C08-reload-init-scope-lost"
+ID_MEMBER_KEY = "C08-decode-member-named-kind-or-cls"
+ALL_IDS = [ID_LINENO, ID_FILEPATH, ID_FULL_BUILTIN, ID_FULL_NS_CWD, ID_SCOPE_SITE, ID_SCOPE_NESTED, ID_STR_PARENT, ID_LAMBDA, ID_CHAIN,
+           ID_INIT_SCOPE, ID_MEMBER_KEY]
 
 
 # -- building and loading trees ---------------------------------------------------------------------------------------
@@ -146,11 +150,11 @@ def load_tree(case: dict, roots: list[str], *, cli_like: bool = False):
 def dump_stats(doc, stats: dict | None = None) -> dict:  # noqa: ANN001
     """Object kinds / expression classes / aliases / structural facts present in a decoded JSON dump."""
     stats = stats if stats is not None else {"kinds": set(), "classes": set(), "aliases": 0, "no_lineno": 0, "list_filepath": 0,
-                                             "null_filepath": 0, "labels": set(), "param_kinds": set(), "objects": 0}
+                                             "null_filepath": 0, "labels": set(), "param_kinds": set(), "objects": 0, "member_keys": 0}
     if isinstance(doc, dict):
-        if "cls" in doc:
+        if isinstance(doc.get("cls"), str):
             stats["classes"].add(doc["cls"])
-        elif "kind" in doc and "name" in doc and doc["kind"] in ("module", "class", "function", "attribute", "alias"):
+        elif isinstance(doc.get("kind"), str) and "name" in doc and doc["kind"] in ("module", "class", "function", "attribute", "alias"):
             stats["kinds"].add(doc["kind"])
             stats["objects"] += 1
             if doc["kind"] == "alias":
@@ -163,7 +167,9 @@ def dump_stats(doc, stats: dict | None = None) -> dict:  # noqa: ANN001
                 elif doc.get("filepath") is None:
                     stats["null_filepath"] += 1
             stats["labels"].update(doc.get("labels", ()))
-        elif "kind" in doc and "name" in doc:
+            if isinstance(doc.get("members"), dict) and ("kind" in doc["members"] or "cls" in doc["members"]):
+                stats["member_keys"] += 1
+        elif isinstance(doc.get("kind"), str) and "name" in doc:
             stats["param_kinds"].add(str(doc["kind"]))
         for v in doc.values():
             dump_stats(v, stats)
@@ -285,20 +291,41 @@ class Walker:
                 first_layer.add(id(elem))
             elif isinstance(elem, ex.ExprAttribute) and isinstance(elem.first, ex.ExprName):
                 first_layer.add(id(elem.first))
+        chain_first = id(e2.first) if isinstance(e2, ex.ExprAttribute) else None
         for n1, n2 in names:
             self.n_names += 1
             c1, c2 = _cp(n1), _cp(n2)
             if c1 == c2:
                 continue
-            finding = None
-            if n2.parent is None and isinstance(n1.parent, str):
-                finding = ID_STR_PARENT
-            elif n2.parent is None and n1.parent is not None and not isinstance(n1.parent, ex.ExprName):
-                if site_kind in ("base", "attribute-annotation"):
-                    finding = ID_SCOPE_SITE
-                elif id(n2) not in first_layer:
-                    finding = ID_SCOPE_NESTED
-            self.add(f"{site}: name {n1.name!r} resolves differently after reload ({site_kind})", c2, c1, finding)
+            self.add(f"{site}: name {n1.name!r} resolves differently after reload ({site_kind})", c2, c1,
+                     self.classify_name(n1, n2, site_kind, first_layer, chain_first))
+
+    @staticmethod
+    def classify_name(n1, n2, site_kind: str, first_layer: set, chain_first: int | None) -> str | None:  # noqa: ANN001
+        """Mechanism predicate for one name that resolves differently: relation between the two `parent` links."""
+        from _griffe import expressions as ex
+        from _griffe.models import Class, Function, Module
+
+        # a name of a dotted chain resolves through the name on its left: judge the leftmost link that differs
+        while isinstance(n1.parent, ex.ExprName) and isinstance(n2.parent, ex.ExprName):
+            n1, n2 = n1.parent, n2.parent
+        p1, p2 = n1.parent, n2.parent
+        if chain_first is not None and id(n2) != chain_first and isinstance(p2, (Module, Class)) \
+                and not isinstance(p1, (Module, Class, Function)):
+            # the whole expression is a dotted chain and every name of it (not only the leftmost) was re-parented to the scope
+            return ID_CHAIN
+        if p2 is None and isinstance(p1, str):
+            return ID_STR_PARENT
+        if p2 is None and isinstance(p1, (Module, Class, Function)):
+            if site_kind in ("base", "attribute-annotation"):
+                return ID_SCOPE_SITE
+            if id(n2) not in first_layer:
+                return ID_SCOPE_NESTED
+            return None
+        if isinstance(p1, Function) and p1.name == "__init__" and isinstance(p2, Class) and p1.parent is not None \
+                and p1.parent.path == p2.path and site_kind in ("attribute-value", "attribute-annotation"):
+            return ID_INIT_SCOPE
+        return None
 
     def _same(self, a, b, names: list) -> bool:  # noqa: ANN001
         from _griffe import expressions as ex
@@ -412,6 +439,9 @@ def classify_decode_error(exc: BaseException, stats: dict) -> str | None:
         return ID_LINENO
     if isinstance(exc, TypeError) and "_load_module" in frames and (stats["list_filepath"] or stats["null_filepath"]):
         return ID_FILEPATH
+    if stats["member_keys"] and frames and ((isinstance(exc, KeyError) and frames[-1] == "_load_parameter") or
+                                            (isinstance(exc, TypeError) and frames[-1] == "_load_expression")):
+        return ID_MEMBER_KEY
     return None
 
 
